@@ -5,13 +5,17 @@ CONSTANTS
   Catalog <- Cat8
   MaxR = 2
   KVals <- K3
-  Orders <- OrdTwo
+  Orders <- OrdOne
   FullOrder = FALSE
   Points <- Pts1
   Feeds <- Fd1
   PhaseMaps <- Ph1
   ReKVals <- NoReK
   MaxHist = 0
+  NameMap <- NmId
+  PForms <- PfPlain
+  Containers <- CtList
+  OvKVals <- Ov3
   Configs <- CfgAll
   Comp <- CompDef
 INVARIANT FreeVsInlinedAgree
@@ -25,5 +29,6 @@ INVARIANT OTypeOK
 INVARIANT PolyAgreesWithFold
 INVARIANT FeedExact
 INVARIANT CurrentConstantRules
+INVARIANT StoichDecomposes
 INVARIANT EmitBuild
 CHECK_DEADLOCK FALSE
